@@ -88,6 +88,17 @@ class Ctx:
                 {"clause": clause, "key": key or clause, "case": readable(case),
                  "detail": readable(detail)})
 
+    def gc(self, every: int = 8):
+        """Drop JAX's compiled-executable caches every `every` calls: long thorough runs compile a
+        fresh program per configuration and would otherwise exhaust memory."""
+        self._gc_n = getattr(self, "_gc_n", 0) + 1
+        if self._gc_n % every == 0:
+            import gc
+
+            import jax
+            jax.clear_caches()
+            gc.collect()
+
     def note(self, text: str):
         if text not in self.notes:
             self.notes.append(text)
